@@ -1,6 +1,6 @@
 (* C15 -- The schema is always well-formed, re-loadable and structurally consistent.  Statements only. *)
 From Coq Require Import ZArith List Bool Arith.
-From RV Require Import Regex GenRegex M_Topology P_Topology P_TopologySchema.
+From RV Require Import Regex GenRegex M_Topology P_Topology P_TopologySchema P_TopologyListed.
 Import ListNotations.
 Local Open Scope nat_scope.
 
@@ -42,6 +42,19 @@ Theorem C15_no_silent_move : forall s d t g k b s' r p0, step s (SetParent d t g
   d_parent (devs s d) = Some p0 ->
   d_parent (devs s' d) = Some p0 /\ (r = Ok -> exists s1 k1, resolve s t g k = (s1, Some (p0, k1))).
 Proof. exact no_silent_move. Qed.
+
+(* ... and the other way round: in every reachable state a device that has a parent is recorded in one of that parent's
+   role slots (zone sensor / actuator, DHW sensor / valve, appliance control, UFH circuit list; FF children of the system have
+   no slot), so it appears in the schema under that parent -- it is never half-attached *)
+Theorem C15_child_is_listed : forall ops mz d p, d_parent (devs (fst (run (init mz) ops)) d) = Some p ->
+  listed (fst (run (init mz) ops)) d p (d_cid (devs (fst (run (init mz) ops)) d)).
+Proof. intros ops mz. exact (run_listed ops mz). Qed.
+
+(* a request that is refused (SystemSchemaInconsistent, TypeError, ...) changes no device's parent, child id or controller and
+   no role slot: the rejected claim leaves no trace (only an empty zone / DHW container may have been created on the way) *)
+Theorem C15_refused_changes_nothing : forall s o s' r, step s o = (s', r) -> r <> Ok ->
+  devs s' = devs s /\ same_roles s s' /\ max_zones s' = max_zones s.
+Proof. exact refused_changes_nothing. Qed.
 
 (* the printed zone keys against the validator's own key regex (regenerated on every run): accepted for every
    max_zones the configuration validator admits (its range is regenerated too) *)
